@@ -132,7 +132,9 @@ Definition check_drift (c : rcase) (co : cobs) (lo : lobs) (ro : obs)
   | LObsList l =>
     let '(ok, known) := spec_flags is_scanned facts all l in
     let ok2 := ok && spec_affects lo ro in
-    verdict agree ok2 miss + (if known && ok2 then 8 + 512 else 0)
+    (* a header look-alike in a hunk body may also truncate the file's later hunks silently *)
+    if f3 && negb ok2 then (if agree then 0 else 1) + 8 + 768
+    else verdict agree ok2 miss + (if known && ok2 then 8 + 512 else 0)
   | _ =>
     (* the run failed although the diff is an ordinary git diff over healthy files *)
     if f3 then (if agree then 0 else 1) + 8 + 768 else verdict agree false miss
